@@ -270,6 +270,12 @@ func keyFromOwnKeySet(g *load.G, s crashSite) string {
 	ast.Inspect(fd.Body, func(n ast.Node) bool {
 		if sel, ok := n.(*ast.SelectorExpr); ok && sel.Pos() == s.Pos {
 			ix, _ = sel.X.(*ast.IndexExpr)
+			// the lookup held in a local defined once: `rule := rules[name]; rule.f`
+			if id, isId := sel.X.(*ast.Ident); isId && ix == nil {
+				if d := singleDefinition(fd.Body, id.Name); d != nil {
+					ix, _ = stripParens(d).(*ast.IndexExpr)
+				}
+			}
 		}
 		return true
 	})
